@@ -567,7 +567,11 @@ static void runSimp(const CaseLP& L, const std::string& id, const std::map<std::
    }
 
    if(res != SPxSimplifier<double>::OKAY)
+   {
+      // the LP as it stands at the moment of the verdict (evidence for replays; not parsed by the check)
+      dumpLP("VLP", id, lp);
       return;
+   }
 
    lp.changeObjOffset(sm.getObjoffset());
    dumpLP("RLP", id, lp);
